@@ -17,8 +17,8 @@ META = dict(
     technique='TLA+ model of scheduler core + mutex protocol checked exhaustively by TLC; TLC trace validation (linearizability against abstract lock) of executions recorded from the real primitives',
     design='3/C01')
 
-PRIMS_Q = [('mutex', 120), ('mutex0', 50), ('mutexc', 50), ('recmutex', 50), ('spin', 30), ('qspin', 30), ('ticket', 30)]
-PRIMS_T = [('mutex', 1500), ('mutex0', 500), ('mutexc', 500), ('recmutex', 500), ('spin', 300), ('qspin', 300), ('ticket', 300)]
+PRIMS_Q = [('cmutex', 1200), ('mutex', 120), ('mutex0', 50), ('mutexc', 50), ('recmutex', 50), ('spin', 30), ('qspin', 30), ('ticket', 30)]
+PRIMS_T = [('cmutex', 30000), ('mutex', 1500), ('mutex0', 500), ('mutexc', 500), ('recmutex', 500), ('spin', 300), ('qspin', 300), ('ticket', 300)]
 
 
 def model_check(ctx):
@@ -49,9 +49,9 @@ def run_traces(ctx, prims):
                                         '--ops', 5, '--out', trace], timeout=900, ok_rcs=(0, 4))
         if rc == 124:
             raise vtlib.InfraError(f'h_sync --prim {prim} timed out')
-        acc, rejs, n = tracecheck.validate(ctx, 'Trace_LockA', 'Trace_LockA.cfg', trace, tagbase=f'lockA_{prim}')
+        rows = [r for r in vtlib.read_ndjson(trace) if r.get('e') != 'Script']
+        acc, rejs, n = tracecheck.validate(ctx, 'Trace_LockA', 'Trace_LockA.cfg', rows, tagbase=f'lockA_{prim}')
         n_exec += n
-        rows = vtlib.read_ndjson(trace)
         for r in rows:
             k = r['e'] + (':' + r['op'] if 'op' in r else '') + (':fail' if r.get('r', 0) != 0 else '')
             kinds[k] = kinds.get(k, 0) + 1
